@@ -99,13 +99,15 @@ class FrameItem(EFLRItem):
             if getattr(attr, key) is None and value is not None:
                 logger.debug(f"Setting {attr.label}.{key} of {self} to {value}")
                 setattr(attr, key, value)
+                setattr(attr, f'_{key}_is_default', True)  # (any later assignment by the user clears the mark)
                 self._derived_from_data[(attr, key)] = getattr(attr, key)
 
-        # what was derived from the data of a previous write (and not changed by the user since) is not the user's
+        # what was derived from the data of a previous write (and not assigned by the user since) is not the user's
         # choice: forget it, so that it is derived anew from the data written now
-        for (attr, key), derived_value in self._derived_from_data.items():
-            if getattr(attr, key) is derived_value:
+        for (attr, key) in self._derived_from_data:
+            if getattr(attr, f'_{key}_is_default'):
                 setattr(attr, f'_{key}', None)
+                setattr(attr, f'_{key}_is_default', False)
         self._derived_from_data.clear()
 
         index_channel: ChannelItem = self.channels.value[0]
